@@ -83,10 +83,30 @@ pub fn run(ctx: &mut Ctx) {
     let cfg = GenCfg::standard();
     let n = ctx.n(400, 25_000);
     let cases = matcher_cases(prop, ctx, &cfg, n);
-    ctx.ev.rule = "each corpus/fixture/generated ledger × {3 random permutations of its lines, 1 random fill-splitting of a BUY/SELL (same Σq, Σq·p, Σfees; BUY fills scattered among other lines)}: the implementation's reports must agree with the base ledger's (legs exactly when no (date, security) has ≥ 2 SELL lines, otherwise per (rule, acquisition date)); base report also compared with the Lean model. File partitions: through the real CLI, the lines spread over 2–3 files (LF or CRLF, with or without a final newline, possibly ending in a comment) against the single file. Non-trivial = accepted ledger with ≥ 2 lines sharing a date; distinct by ledger text.".into();
+    ctx.ev.rule = "each corpus/fixture/generated ledger × {3 random permutations of its lines, 1 random fill-splitting of a BUY/SELL (same Σq, Σq·p, Σfees; BUY fills scattered among other lines)}: the implementation's reports must agree with the base ledger's (legs exactly when no (date, security) has ≥ 2 SELL lines, otherwise per (rule, acquisition date)); base report also compared with the Lean model. Known-finding class multiSellDay (D17) is probed with its witness in two line orders. File partitions: through the real CLI, the lines spread over 2–3 files (LF or CRLF, with or without a final newline, possibly ending in a comment) against the single file. Non-trivial = accepted ledger with ≥ 2 lines sharing a date; distinct by ledger text.".into();
     let ex = run_impl::wide_exemptions();
     let mut r = Rng::new(ctx.seed ^ 0xC06);
     let mut cli_budget: i64 = if ctx.tier == Tier::Quick { 10 } else { 120 };
+    // known finding D17 (class multiSellDay): its witness in two line orders, legs compared exactly
+    {
+        use rust_decimal::Decimal;
+        let day = ledger::d(2024, 5, 1);
+        let a: Ledger = vec![
+            GTx::new(ledger::d(2024, 1, 2), "AAA", Kind::Buy, Decimal::from(1000), Decimal::from(2), Decimal::ZERO),
+            GTx::new(day, "AAA", Kind::Buy, Decimal::from(500), Decimal::from(3), Decimal::ZERO),
+            GTx::new(day, "AAA", Kind::Sell, Decimal::from(300), Decimal::from(4), Decimal::ZERO),
+            GTx::new(day, "AAA", Kind::Buy, Decimal::from(200), Decimal::from(3), Decimal::ZERO),
+            GTx::new(day, "AAA", Kind::Sell, Decimal::from(250), Decimal::from(5), Decimal::ZERO),
+        ];
+        let b: Ledger = vec![a[0].clone(), a[1].clone(), a[3].clone(), a[2].clone(), a[4].clone()];
+        ctx.ev.evaluations += 1;
+        let (ra, rb) = (run_impl::impl_calc(&a, None, &ex), run_impl::impl_calc(&b, None, &ex));
+        if let Some(what) = same(&ra, &rb, false) {
+            ctx.ev.violation("oracle", format!("permuting the lines changes the report beyond the known leg partition: {what}"), replay_text(prop, "oracle", &what, &a, &[]));
+        } else if same(&ra, &rb, true).is_some() {
+            ctx.ev.known("multiSellDay", "D17: the partition of a day's disposal into legs follows which lines sit between that day's SELL lines");
+        } else { ctx.ev.count("multi-sell-day-witness:same-legs"); }
+    }
     for (name, l) in cases {
         ctx.ev.evaluations += 1;
         let base = run_impl::impl_calc(&l, None, &ex);
